@@ -140,6 +140,7 @@ class Scenario:
         self.times = times
         self.measurements = []
         self.sample_times = {}
+        self.shared = False
         for s in case['sensors']:
             k = s['n']
             idx = np.sort(rng.choice(np.arange(1, len(times) - 1), size=k, replace=False))
@@ -151,6 +152,11 @@ class Scenario:
                 ts = times[idx[0]] + np.sort(rng.uniform(0.05, 0.95, k)) * dt
             else:
                 ts = times[idx] + np.where(rng.rand(k) < 0.5, 0.0, rng.uniform(0.05, 0.95, k) * dt)
+            if self.sample_times and rng.rand() < 0.5:
+                # epochs shared with the first sensor (two sensors at one time)
+                first = next(iter(self.sample_times.values()))
+                ts = np.concatenate([ts, first[:2]])
+                self.shared = True
             ts = np.unique(ts)
             truth = pd.DataFrame([interp_pose(self.nominal.iloc[np.searchsorted(times, x, side='right') - 1],
                                               self.nominal.iloc[min(np.searchsorted(times, x, side='right'), len(times) - 1)],
@@ -260,7 +266,8 @@ def run_estimator(case, ctx):
     ctx.label('mode=3D' if wa else 'mode=2D', f"sensors={len(case['sensors'])}", f"n_states={o['xs'].shape[1]}",
               'step=' + ('<0.5' if case['time_step'] < 0.5 else '<2' if case['time_step'] < 2 else '>=2'),
               'sm_states' if (sc.gm.scale_misal_modelled or sc.am.scale_misal_modelled) else 'no_sm',
-              'walk_states' if (sc.gm.n_noises or sc.am.n_noises) else 'no_walk')
+              'walk_states' if (sc.gm.n_noises or sc.am.n_noises) else 'no_walk',
+              'shared_epoch' if sc.shared else 'no_shared_epoch')
     if o['unattached']:
         ctx.inconclusive['sample_node_not_on_grid'] += 1
         return
